@@ -70,7 +70,8 @@ class HeapMixin:
     def heap_array(self, st: State, key: str, ksort: str, vsort: str) -> T:
         if key not in st.heap:
             # same initial constant on every path: declared once per key
-            name = "H0$" + key
+            import re as _re
+            name = "H0$" + _re.sub(r"[^A-Za-z0-9_$.!]", "_", key)
             t = self.decls.const(name, arr(ksort, vsort))
             self.initial_heap.setdefault(key, t)
             st.heap[key] = t
